@@ -225,9 +225,13 @@ function genVersion (rng, fi, vi, kind, o) {
       hole = [h1, h2]
     }
     // relative to the file's folder, or absolute (bundlers emit both)
-    const source = rng.pick(['../ts/orig.ts', `src/f${fi}.ts`, `f${fi}v${vi}.ts`, `/abs/src/f${fi}.ts`])
+    let source = rng.pick(['../ts/orig.ts', `src/f${fi}.ts`, `f${fi}v${vi}.ts`, `/abs/src/f${fi}.ts`])
     const source2 = `src/second_f${fi}.ts`
-    const sourceRoot = rng.pick([undefined, '', 'root', 'root/'])
+    let sourceRoot = rng.pick([undefined, '', 'root', 'root/'])
+    // a file transpiled in place or in memory (ts-node, tsx, an in-place build): its original map names the file
+    // itself as the only source, so the map the rewriter produces has the very same `sources` (no draw: decided
+    // by numbers the generator has drawn anyway)
+    if (!split && (off + mult + fi * 7 + vi * 3) % 5 === 0) { source = path.basename(o.file); if (sourceRoot) sourceRoot = '' }
     // real maps repeat entries of `sources` (a bundle input listed twice): the tokens then use the later index
     if (rng.chance(1, 4)) {
       const shift = split ? 1 : 2
